@@ -429,8 +429,8 @@ Proof.
         cbn [rq3]. cbn [app] in *. unfold renders in *. cbn [flat_map] in *.
         destruct a as [| | |x]; try contradiction; cbn [render app] in *.
         -- rewrite repl_q3_miss by reflexivity. rewrite repl_q3_miss by (destruct T as [E|E]; subst; reflexivity).
-           fold (renders tl). rewrite (IH [] tl) by (simpl; auto; lia). destruct f; reflexivity.
-        -- rewrite repl_q3_miss by exact P. fold (renders tl). rewrite (IH [] tl) by (simpl; auto; lia).
+           change (flat_map render tl) with (flat_map render ([] ++ tl)). rewrite (IH [] tl) by (simpl in L |- *; auto; lia). destruct f; reflexivity.
+        -- rewrite repl_q3_miss by exact P. change (flat_map render tl) with (flat_map render ([] ++ tl)). rewrite (IH [] tl) by (simpl in L |- *; auto; lia).
            destruct f; reflexivity.
       * (* two tokens left *)
         cbn [rq3]. cbn [app] in *. unfold renders in *. cbn [flat_map] in *.
@@ -439,9 +439,9 @@ Proof.
            rewrite repl_q3_miss by (pose proof (prefix_q3_tokens [b] tl B1 T) as Q; unfold renders in Q;
                                     cbn [app flat_map] in Q; unfold q3 in *; cbn [prefixb];
                                     replace (N.eqb 34 bs) with false by reflexivity; reflexivity).
-           fold (renders ([b] ++ tl)). rewrite (IH [b] tl) by (simpl; auto; lia). reflexivity.
-        -- rewrite repl_q3_miss by exact P. fold (renders ([b] ++ tl)).
-           rewrite (IH [b] tl) by (simpl; auto; lia). reflexivity.
+           change (render b ++ flat_map render tl) with (flat_map render ([b] ++ tl)). rewrite (IH [b] tl) by (simpl in L |- *; auto; lia). reflexivity.
+        -- rewrite repl_q3_miss by exact P. change (render b ++ flat_map render tl) with (flat_map render ([b] ++ tl)).
+           rewrite (IH [b] tl) by (simpl in L |- *; auto; lia). reflexivity.
       * (* at least three *)
         cbn [rq3]. destruct (is_rq a && is_rq b && is_rq c) eqn:Q.
         -- apply andb_true_iff in Q as [Q Qc]. apply andb_true_iff in Q as [Qa Qb].
@@ -450,12 +450,498 @@ Proof.
            apply N.eqb_eq in Qa, Qb, Qc. subst.
            cbn [app]. unfold renders. cbn [flat_map render app]. fold (renders (r ++ tl)). fold (renders (rq3 f r ++ tl)).
            rewrite repl_q3_hit. inversion B1 as [|? ? ? B2]; subst. inversion B2 as [|? ? ? B3]; subst.
-           rewrite (IH r tl) by (auto; lia). reflexivity.
+           rewrite (IH r tl) by (simpl in L |- *; auto; lia). reflexivity.
         -- cbn [app] in *. unfold renders in *. cbn [flat_map] in *.
            destruct a as [| | |x]; try contradiction; cbn [render app] in *.
            ++ rewrite repl_q3_miss by reflexivity.
               rewrite repl_q3_miss by (unfold q3; cbn [prefixb]; replace (N.eqb 34 bs) with false by reflexivity; reflexivity).
-              fold (renders ((b :: c :: r) ++ tl)). rewrite (IH (b :: c :: r) tl) by (simpl in *; auto; lia). reflexivity.
-           ++ rewrite repl_q3_miss by exact P. fold (renders ((b :: c :: r) ++ tl)).
-              rewrite (IH (b :: c :: r) tl) by (simpl in *; auto; lia). reflexivity.
+              change (render b ++ render c ++ flat_map render (r ++ tl)) with (flat_map render ((b :: c :: r) ++ tl)). rewrite (IH (b :: c :: r) tl) by (simpl in L |- *; auto; lia). reflexivity.
+           ++ rewrite repl_q3_miss by exact P. change (render b ++ render c ++ flat_map render (r ++ tl)) with (flat_map render ((b :: c :: r) ++ tl)).
+              rewrite (IH (b :: c :: r) tl) by (simpl in L |- *; auto; lia). reflexivity.
 Qed.
+
+(* the carriage returns *)
+Definition cr (t : tok) : tok := match t with TChar c => if N.eqb c 13 then TCR else t | _ => t end.
+
+Lemma enc3_step4 : forall ts, replace [13] [bs; 114] (renders ts) = renders (map cr ts).
+Proof.
+  intro ts. unfold renders. rewrite replace1_flat, flat_map_map. apply flat_map_ext. intro t.
+  destruct t as [| | |c]; try reflexivity. cbn [render cr]. rewrite replace1_flat_map. cbn [flat_map app].
+  rewrite (N.eqb_sym 13 c). destruct (N.eqb c 13); reflexivity.
+Qed.
+
+Lemma cr_value : forall t, value (cr t) = value t.
+Proof. destruct t as [| | |c]; auto. cbn [cr]. destruct (N.eqb c 13) eqn:E; auto. apply N.eqb_eq in E. subst. reflexivity. Qed.
+Lemma cr_ok : forall t, tok_ok t -> tok_ok (cr t).
+Proof. destruct t as [| | |c]; auto. cbn [cr]. destruct (N.eqb c 13); simpl; auto. Qed.
+
+Lemma rq3_value : forall f ts, map value (rq3 f ts) = map value ts.
+Proof.
+  induction f as [|f IH]; intro ts; auto. destruct ts as [|a [|b [|c r]]]; cbn [rq3 map]; rewrite ?IH; auto.
+  destruct (is_rq a && is_rq b && is_rq c) eqn:Q.
+  - apply andb_true_iff in Q as [Q Qc]. apply andb_true_iff in Q as [Qa Qb].
+    destruct a as [| | |xa]; try discriminate. destruct b as [| | |xb]; try discriminate.
+    destruct c as [| | |xc]; try discriminate. cbn [is_rq] in *. apply N.eqb_eq in Qa, Qb, Qc. subst.
+    cbn [map value]. rewrite IH. reflexivity.
+  - cbn [map]. rewrite IH. reflexivity.
+Qed.
+
+Lemma rq3_ok : forall f ts, Forall tok_ok ts -> Forall tok_ok (rq3 f ts).
+Proof.
+  induction f as [|f IH]; intros ts H; auto. destruct ts as [|a [|b [|c r]]]; cbn [rq3]; auto.
+  - inversion H; subst. constructor; auto.
+  - inversion H; subst. constructor; auto.
+  - destruct (is_rq a && is_rq b && is_rq c).
+    + inversion H as [|? ? ? H1]; subst. inversion H1 as [|? ? ? H2]; subst. inversion H2; subst.
+      repeat constructor; simpl; auto.
+    + inversion H; subst. constructor; auto.
+Qed.
+
+Lemma basic_ok : forall s, cp_ok s = true -> Forall tok_ok (map t1 s) /\ Forall basic (map t1 s) /\ map value (map t1 s) = s.
+Proof.
+  induction s as [|c s IH]; intro H; [repeat split; constructor|].
+  cbn [cp_ok forallb] in H. apply andb_true_iff in H as [Hc H]. destruct (IH H) as [A [B C]].
+  cbn [map]. repeat split.
+  - constructor; auto. unfold t1. destruct (N.eqb c bs) eqn:E; simpl; auto. apply N.eqb_neq in E. apply N.ltb_lt in Hc. auto.
+  - constructor; auto. apply t1_basic.
+  - f_equal; auto. unfold t1. destruct (N.eqb c bs) eqn:E; auto. apply N.eqb_eq in E. auto.
+Qed.
+
+Lemma lastq_split : forall ts, Forall basic ts -> Forall tok_ok ts ->
+  exists ts' tl, lastq ts = ts' ++ tl /\ Forall basic ts' /\ tailq tl
+                 /\ Forall tok_ok (ts' ++ tl) /\ map value (ts' ++ tl) = map value ts /\ (length ts' <= length ts)%nat.
+Proof.
+  intros ts B OK. unfold lastq. destruct (rev ts) as [|t r] eqn:R.
+  - exists ts, []. rewrite app_nil_r. repeat split; auto. left; reflexivity.
+  - assert (ts = rev r ++ [t]) as E by (rewrite <- (rev_involutive ts), R; reflexivity).
+    destruct t as [| | |c]; try (exists ts, []; rewrite app_nil_r; repeat split; auto; left; reflexivity).
+    destruct (N.eqb c 34) eqn:Q; [|exists ts, []; rewrite app_nil_r; repeat split; auto; left; reflexivity].
+    apply N.eqb_eq in Q. subst c. exists (rev r), [TQ]. subst ts.
+    apply Forall_app in B as [B1 _]. apply Forall_app in OK as [O1 _].
+    repeat split; auto.
+    + right; reflexivity.
+    + apply Forall_app. split; auto. repeat constructor.
+    + rewrite !map_app. reflexivity.
+    + rewrite app_length. simpl. lia.
+Qed.
+
+(* what _quote_encode writes *)
+Theorem quote_encode_tokens : forall s, cp_ok s = true ->
+  exists ts, Forall tok_ok ts /\ map value ts = s /\
+    ((mem 10 s = false /\ quote_encode s = q1 ++ renders ts ++ q1
+      /\ match renders ts with 34 :: _ => False | _ => True end)
+     \/ (mem 10 s = true /\ quote_encode s = q3 ++ renders ts ++ q3)).
+Proof.
+  intros s CP. unfold quote_encode. destruct (mem 10 s) eqn:M.
+  - (* triple-quoted *)
+    destruct (basic_ok s CP) as [OK [B V]].
+    rewrite enc3_step1, (enc3_step2 _ B).
+    destruct (lastq_split _ B OK) as [ts' [tl [E [B' [T [OK' [V' L]]]]]]]. rewrite E.
+    exists (map cr (rq3 (length ts') ts' ++ tl)). split; [|split].
+    + apply Forall_forall. intros t Hin. apply in_map_iff in Hin as [t0 [Et Hin]]. subst. apply cr_ok.
+      apply Forall_app in OK' as [O1 O2].
+      assert (Forall tok_ok (rq3 (length ts') ts' ++ tl)) as F by (apply Forall_app; split; auto using rq3_ok).
+      rewrite Forall_forall in F. auto.
+    + rewrite map_map. rewrite (map_ext _ value cr_value). rewrite map_app, rq3_value, <- map_app. congruence.
+    + right. split; auto.
+      replace (if containsb q3 (renders (ts' ++ tl)) then replace q3 [bs; 34; bs; 34; bs; 34] (renders (ts' ++ tl)) else renders (ts' ++ tl))
+        with (renders (rq3 (length ts') ts' ++ tl)).
+      * rewrite enc3_step4. reflexivity.
+      * pose proof (rq3_tokens (length ts') ts' tl (le_n _) B' T) as R. unfold esc3 in R.
+        destruct (containsb q3 (renders (ts' ++ tl))) eqn:C; [symmetry; exact R|].
+        (* no triple quote at all: replace changed nothing *)
+        rewrite <- R. clear R. revert C. generalize (renders (ts' ++ tl)). intro x. unfold replace.
+        induction x as [|c x IHx]; intro C; auto. cbn [containsb] in C. apply orb_false_iff in C as [C1 C2].
+        cbn [repl_aux]. rewrite C1. f_equal. apply IHx. exact C2.
+  - (* single-quoted *)
+    apply mem_false in M. rewrite (enc1_tokens s M).
+    exists (map tok1 s). split; [|split].
+    + apply Forall_forall. intros t Hin. apply in_map_iff in Hin as [c [Et Hin]]. subst. apply tok1_ok.
+      unfold cp_ok in CP. rewrite forallb_forall in CP. apply N.ltb_lt. auto.
+    + rewrite map_map. rewrite (map_ext _ (fun c => c) tok1_value). apply map_id.
+    + left. repeat split; auto.
+      destruct s as [|c s]; [exact I|]. cbn [map renders flat_map]. unfold tok1.
+      destruct (N.eqb c bs); [exact I|]. destruct (N.eqb c 34) eqn:E; [exact I|].
+      destruct (N.eqb c 13); [exact I|]. cbn [render app]. destruct (N.eq_dec c 34) as [X|X].
+      * subst. discriminate.
+      * destruct c; auto. repeat (destruct p; auto). 
+Qed.
+
+(* ------------------------------------------------------------------ *)
+(* from_n3 on the text of a literal *)
+
+Lemma rsplit1_last3 : forall a suffix, ~ In 34 suffix -> rsplit1 q3 (a ++ q3 ++ suffix) = Some (a, suffix).
+Proof.
+  intros a suffix H. induction a as [|c a IH].
+  - unfold q3. cbn [app rsplit1]. rewrite (rsplit1_absent 34 [34; 34] suffix H).
+    assert (prefixb [34; 34; 34] (34 :: suffix) = false) as P1.
+    { cbn [prefixb]. rewrite N.eqb_refl. cbn [andb]. destruct suffix as [|x r]; auto.
+      destruct (N.eqb 34 x) eqn:E; auto. apply N.eqb_eq in E. subst. exfalso. apply H. simpl. auto. }
+    assert (prefixb [34; 34; 34] (34 :: 34 :: suffix) = false) as P2.
+    { cbn [prefixb]. rewrite !N.eqb_refl. cbn [andb]. destruct suffix as [|x r]; auto.
+      destruct (N.eqb 34 x) eqn:E; auto. apply N.eqb_eq in E. subst. exfalso. apply H. simpl. auto. }
+    rewrite P1, P2. cbn [prefixb]. rewrite !N.eqb_refl. reflexivity.
+  - cbn [app rsplit1]. rewrite IH. reflexivity.
+Qed.
+
+Definition lit_tail (o : ctor_oracle) (lex suffix : str) : wres :=
+  match after_last [94; 94] suffix with
+  | Some d =>
+      match dt_from_n3 d with
+      | None => WAny
+      | Some None => WRaise
+      | Some (Some u) => mk_literal o true lex None (Some u)
+      end
+  | None => mk_literal o true lex (match suffix with 64 :: l => Some l | _ => None end) None
+  end.
+
+Lemma from_n3_tokens1 : forall o ts suffix, Forall tok_ok ts -> ~ In 34 suffix ->
+  match renders ts with 34 :: _ => False | _ => True end ->
+  from_n3 o (q1 ++ renders ts ++ q1 ++ suffix) = lit_tail o (map value ts) suffix.
+Proof.
+  intros o ts suffix OK S F. unfold q1. cbn [app from_n3].
+  assert (prefixb q3 (34 :: renders ts ++ 34 :: suffix) = false) as P.
+  { unfold q3. cbn [prefixb]. rewrite N.eqb_refl. cbn [andb].
+    destruct (renders ts) as [|c r] eqn:R; cbn [app prefixb].
+    - rewrite N.eqb_refl. cbn [andb]. destruct suffix as [|x r]; auto.
+      destruct (N.eqb 34 x) eqn:E; auto. apply N.eqb_eq in E. subst. exfalso. apply S. simpl. auto.
+    - destruct (N.eqb 34 c) eqn:E; auto. apply N.eqb_eq in E. subst. contradiction. }
+  rewrite P. change (34 :: renders ts ++ 34 :: suffix) with ((34 :: renders ts) ++ 34 :: suffix).
+  unfold q1. rewrite (rsplit1_last1 34 (34 :: renders ts) suffix S). cbn [length skipn].
+  rewrite (decode_tokens ts OK). unfold lit_tail.
+  destruct (after_last [94; 94] suffix); reflexivity.
+Qed.
+
+Lemma from_n3_tokens3 : forall o ts suffix, Forall tok_ok ts -> ~ In 34 suffix ->
+  from_n3 o (q3 ++ renders ts ++ q3 ++ suffix) = lit_tail o (map value ts) suffix.
+Proof.
+  intros o ts suffix OK S.
+  assert (exists x, q3 ++ renders ts ++ q3 ++ suffix = 34 :: x /\ prefixb q3 (34 :: x) = true) as [x [E P]].
+  { unfold q3. cbn [app]. eexists. split; [reflexivity|]. cbn [prefixb]. rewrite !N.eqb_refl. reflexivity. }
+  rewrite E. cbn [from_n3]. rewrite P. rewrite <- E.
+  rewrite app_assoc. rewrite (rsplit1_last3 (q3 ++ renders ts) suffix S).
+  replace (skipn (length q3) (q3 ++ renders ts)) with (renders ts) by reflexivity.
+  rewrite (decode_tokens ts OK). unfold lit_tail.
+  destruct (after_last [94; 94] suffix); reflexivity.
+Qed.
+
+(* the text of a literal that n3() does not respell, read back *)
+Lemma from_n3_quote_encode : forall o lex suffix, cp_ok lex = true -> ~ In 34 suffix ->
+  from_n3 o (quote_encode lex ++ suffix) = lit_tail o lex suffix.
+Proof.
+  intros o lex suffix CP S.
+  destruct (quote_encode_tokens lex CP) as [ts [OK [V [[M [E F]]|[M E]]]]]; rewrite E, <- V.
+  - rewrite <- !app_assoc. apply from_n3_tokens1; auto.
+  - rewrite <- !app_assoc. apply from_n3_tokens3; auto.
+Qed.
+
+(* ------------------------------------------------------------------ *)
+(* IRIs, suffixes, respelling *)
+
+Lemma codec_nobs : forall s, cp_ok s = true -> ~ In bs s -> codec s = Some s.
+Proof.
+  unfold codec. induction s as [|c s IH]; intros CP H; auto.
+  cbn [cp_ok forallb] in CP. apply andb_true_iff in CP as [Hc CP]. apply N.ltb_lt in Hc.
+  change (rue_encode (c :: s)) with (rue_char c ++ rue_encode s).
+  rewrite codec_char; auto.
+  - rewrite IH; auto. intro; apply H; simpl; auto.
+  - intro; subst; apply H; simpl; auto.
+Qed.
+
+Lemma from_n3_iri : forall o s, valid_uri s = true -> cp_ok s = true ->
+  from_n3 o (60 :: s ++ [62]) = WTerm (IRI s).
+Proof.
+  intros o s V L. cbn [from_n3]. rewrite removelast_snoc.
+  rewrite codec_nobs; auto. apply (invalid_has bs s inv_bs V).
+Qed.
+
+Lemma lit_tail_plain : forall o lex, lit_tail o lex [] = mk_literal o true lex None None.
+Proof. reflexivity. Qed.
+
+Lemma lit_tail_lang : forall o lex l, tag_chars l = true ->
+  lit_tail o lex (64 :: l) = mk_literal o true lex (Some l) None.
+Proof.
+  intros o lex l T. unfold lit_tail, after_last.
+  rewrite (rsplit1_absent 94 [94] (64 :: l)); auto.
+  simpl. intros [X|X]; [discriminate|]. revert X. apply tag_no; auto.
+Qed.
+
+Lemma lit_tail_dt : forall o lex d, valid_uri d = true -> cp_ok d = true ->
+  lit_tail o lex (94 :: 94 :: 60 :: d ++ [62]) = mk_literal o true lex None (Some d).
+Proof.
+  intros o lex d V CP. unfold lit_tail.
+  assert (after_last [94; 94] (94 :: 94 :: 60 :: d ++ [62]) = Some (60 :: d ++ [62])) as AL.
+  { unfold after_last. cbn [rsplit1].
+    rewrite (rsplit1_absent 94 [94] (d ++ [62])).
+    2:{ intro X. apply in_app_or in X as [X|X]. apply (invalid_has 94 d inv_caret V X).
+        simpl in X. destruct X as [X|[]]. discriminate. }
+    simpl. reflexivity. }
+  rewrite AL. cbn [dt_from_n3]. rewrite removelast_snoc.
+  rewrite (codec_nobs d CP (invalid_has bs d inv_bs V)). reflexivity.
+Qed.
+
+(* replacing inside quotes: a pattern without a quote never sees the closing quote *)
+Lemma prefixb_snoc : forall pat x, ~ In 34 pat -> prefixb pat (x ++ [34]) = prefixb pat x.
+Proof.
+  induction pat as [|p pat IH]; intros x H; auto.
+  destruct x as [|c x]; cbn [app prefixb].
+  - destruct (N.eqb p 34) eqn:E; auto. apply N.eqb_eq in E. subst. exfalso. apply H. simpl. auto.
+  - rewrite IH; auto. intro; apply H; simpl; auto.
+Qed.
+
+Lemma prefixb_length : forall pat x, prefixb pat x = true -> (length pat <= length x)%nat.
+Proof.
+  induction pat as [|p pat IH]; intros x H; simpl; [lia|].
+  destruct x as [|c x]; [discriminate|]. cbn [prefixb] in H. apply andb_true_iff in H as [_ H].
+  apply IH in H. simpl. lia.
+Qed.
+
+Lemma repl_snoc : forall p pat rep s k, ~ In 34 (p :: pat) -> (k <= length s)%nat ->
+  repl_aux (p :: pat) rep k (s ++ [34]) = repl_aux (p :: pat) rep k s ++ [34].
+Proof.
+  intros p pat rep s. induction s as [|c s IH]; intros k H L.
+  - simpl in L. assert (k = 0%nat) by lia. subst. cbn [app repl_aux prefixb].
+    destruct (N.eqb p 34) eqn:E; auto. apply N.eqb_eq in E. subst. exfalso. apply H. simpl. auto.
+  - cbn [app repl_aux]. destruct k as [|k].
+    + change (c :: s ++ [34]) with ((c :: s) ++ [34]). rewrite prefixb_snoc by exact H.
+      destruct (prefixb (p :: pat) (c :: s)) eqn:P.
+      * apply prefixb_length in P. rewrite IH by (auto; simpl in *; lia). rewrite app_assoc. reflexivity.
+      * rewrite IH by (auto; lia). reflexivity.
+    + apply IH; auto. simpl in L. lia.
+Qed.
+
+Lemma replace_wrap : forall p pat rep s, ~ In 34 (p :: pat) ->
+  replace (p :: pat) rep (34 :: s ++ [34]) = 34 :: replace (p :: pat) rep s ++ [34].
+Proof.
+  intros p pat rep s H. unfold replace. cbn [repl_aux prefixb].
+  destruct (N.eqb p 34) eqn:E; [apply N.eqb_eq in E; subst; exfalso; apply H; simpl; auto|].
+  cbn [andb]. rewrite repl_snoc by (auto; lia). reflexivity.
+Qed.
+
+Lemma repl_plain : forall pat rep s k, forallb plain_char rep = true -> forallb plain_char s = true ->
+  forallb plain_char (repl_aux pat rep k s) = true.
+Proof.
+  intros pat rep s. induction s as [|c s IH]; intros k R S; auto.
+  cbn [forallb] in S. apply andb_true_iff in S as [Sc S]. cbn [repl_aux]. destruct k.
+  - destruct (prefixb pat (c :: s)).
+    + rewrite forallb_app, R. apply IH; auto.
+    + cbn [forallb]. rewrite Sc. apply IH; auto.
+  - apply IH; auto.
+Qed.
+
+Lemma plain_not_in : forall lex c, forallb plain_char lex = true -> (c = 10 \/ c = 13 \/ c = 34 \/ c = 92) -> ~ In c lex.
+Proof.
+  intros lex c H Hc Hin. rewrite forallb_forall in H. specialize (H c Hin). unfold plain_char in H.
+  repeat (apply andb_true_iff in H as [H ?]).
+  repeat match goal with X : negb _ = true |- _ => apply negb_true_iff in X; apply N.eqb_neq in X end.
+  intuition congruence.
+Qed.
+
+Lemma quote_encode_plain : forall lex, forallb plain_char lex = true -> quote_encode lex = 34 :: lex ++ [34].
+Proof.
+  intros lex H. unfold quote_encode.
+  assert (mem 10 lex = false) as M by (apply mem_false; apply (plain_not_in lex 10 H); auto).
+  rewrite M. unfold bs.
+  rewrite (replace_absent 10 [] _ lex) by (apply (plain_not_in lex 10 H); auto).
+  rewrite (replace_absent 92 [] _ lex) by (apply (plain_not_in lex 92 H); auto).
+  rewrite (replace_absent 34 [] _ lex) by (apply (plain_not_in lex 34 H); auto).
+  rewrite (replace_absent 13 [] _ lex) by (apply (plain_not_in lex 13 H); auto).
+  reflexivity.
+Qed.
+
+(* the INF / NaN respelling acts on the lexical form *)
+Lemma n3_quoted_lex : forall lex dt,
+  (respelled lex dt = true -> forallb plain_char lex = true) ->
+  n3_quoted lex dt = quote_encode (n3_lex lex dt) /\
+  (respelled lex dt = true -> forallb plain_char (n3_lex lex dt) = true).
+Proof.
+  intros lex dt H. unfold n3_quoted, n3_lex, respelled in *.
+  destruct dt as [d|]; [|split; [reflexivity|discriminate]].
+  destruct (smem d infnan_types); [|split; [reflexivity|discriminate]].
+  destruct (float_class lex); cbn [andb] in H.
+  - specialize (H eq_refl). split.
+    + rewrite (quote_encode_plain lex H).
+      rewrite (replace_wrap 105 [110; 102]) by (simpl; intuition discriminate).
+      rewrite (replace_wrap 73 [110; 102; 105; 110; 105; 116; 121]) by (simpl; intuition discriminate).
+      rewrite quote_encode_plain; [reflexivity|]. apply repl_plain; [reflexivity|]. apply repl_plain; [reflexivity|exact H].
+    + intros _. apply repl_plain; [reflexivity|]. apply repl_plain; [reflexivity|exact H].
+  - specialize (H eq_refl). split.
+    + rewrite (quote_encode_plain lex H).
+      rewrite (replace_wrap 110 [97; 110]) by (simpl; intuition discriminate).
+      rewrite quote_encode_plain; [reflexivity|]. apply repl_plain; [reflexivity|exact H].
+    + intros _. apply repl_plain; [reflexivity|exact H].
+  - split; [reflexivity|discriminate].
+Qed.
+
+Lemma repl_cp : forall pat rep s k, cp_ok rep = true -> cp_ok s = true -> cp_ok (repl_aux pat rep k s) = true.
+Proof.
+  intros pat rep s. unfold cp_ok. induction s as [|c s IH]; intros k R S; auto.
+  cbn [forallb] in S. apply andb_true_iff in S as [Sc S]. cbn [repl_aux]. destruct k.
+  - destruct (prefixb pat (c :: s)).
+    + rewrite forallb_app, R. apply IH; auto.
+    + cbn [forallb]. rewrite Sc. apply IH; auto.
+  - apply IH; auto.
+Qed.
+
+Lemma n3_lex_cp : forall lex dt, cp_ok lex = true -> cp_ok (n3_lex lex dt) = true.
+Proof.
+  intros lex dt H. unfold n3_lex. destruct dt as [d|]; auto. destruct (smem d infnan_types); auto.
+  destruct (float_class lex); auto; unfold replace; repeat apply repl_cp; auto.
+Qed.
+
+(* ------------------------------------------------------------------ *)
+(* the round trip *)
+
+Definition respell_ok (t : term) : Prop :=
+  match t with Lit lex dt _ => respelled lex dt = true -> forallb plain_char lex = true | _ => True end.
+
+(* from_n3 (n3 t), for every well-formed term: the term itself, a literal being rebuilt by the default constructor
+   from the lexical form the text shows *)
+Theorem from_n3_n3_wf : forall o t s, wf_term t = true -> respell_ok t -> n3 t = Some s ->
+  from_n3 o s =
+  match t with
+  | Lit lex dt lang => mk_literal o true (n3_lex lex dt) lang dt
+  | _ => WTerm t
+  end.
+Proof.
+  intros o t s W R E. destruct t as [u|u|u|lex dt lang]; cbn [n3] in E.
+  - destruct (valid_uri u) eqn:V; [|discriminate]. inversion E; subst. cbn [app].
+    apply from_n3_iri; auto.
+  - inversion E; subst. reflexivity.
+  - inversion E; subst. cbn [wf_term] in W. apply andb_true_iff in W as [_ W].
+    destruct u as [|x r]; [discriminate|]. apply negb_true_iff in W.
+    cbn [from_n3 mk_var]. rewrite N.eqb_refl. cbn [mk_var]. rewrite W. reflexivity.
+  - cbn [wf_term] in W. apply andb_true_iff in W as [CP W]. cbn [respell_ok] in R.
+    destruct (n3_quoted_lex lex dt R) as [NQ _]. rewrite NQ in E.
+    pose proof (n3_lex_cp lex dt CP) as CP'.
+    destruct dt as [d|], lang as [l|]; try discriminate.
+    + apply andb_true_iff in W as [W Wc]. apply andb_true_iff in W as [V NE].
+      assert (truthy (Some d) = true) as T by (destruct d; [simpl in NE; discriminate|reflexivity]).
+      rewrite T in E. change (truthy None) with false in E. cbv iota in E. cbn [dt_or_string] in E.
+      inversion E; subst. clear E.
+      replace ([94; 94; 60] ++ d ++ [62]) with (94 :: 94 :: 60 :: d ++ [62]) by reflexivity.
+      rewrite from_n3_quote_encode; auto.
+      * apply lit_tail_dt; auto.
+      * simpl. intros [X|[X|[X|X]]]; try discriminate. apply in_app_or in X as [X|X].
+        -- apply (invalid_has 34 d inv_quote V X).
+        -- simpl in X. destruct X as [X|[]]. discriminate.
+    + apply andb_true_iff in W as [VL TC].
+      assert (truthy (Some l) = true) as T by (destruct l; [discriminate|reflexivity]).
+      rewrite T in E. cbn [lang_or_empty] in E. inversion E; subst. clear E.
+      rewrite from_n3_quote_encode; auto.
+      * apply lit_tail_lang; auto.
+      * simpl. intros [X|X]; [discriminate|]. revert X. apply tag_no; auto.
+    + cbn [truthy] in E. inversion E; subst. clear E.
+      match goal with |- from_n3 _ ?x = _ => rewrite <- (app_nil_r x) end.
+      rewrite from_n3_quote_encode; auto.
+Qed.
+
+Lemma twf_parts : forall c, twf c = true ->
+  wf_term (t_term c) = true /\ respell_ok (t_term c) /\
+  match t_term c with
+  | Lit lex dt _ =>
+      match ctor_lex (t_orc c) lex dt, ctor_lex (t_orc c) (n3_lex lex dt) dt with
+      | Some a, Some b => a = b
+      | _, _ => True
+      end
+  | _ => True
+  end.
+Proof.
+  intros c H. unfold twf in H. apply andb_true_iff in H as [W H]. split; auto.
+  destruct (t_term c) as [u|u|u|lex dt lang]; cbn [respell_ok]; auto.
+  destruct (respelled lex dt) eqn:R.
+  - apply andb_true_iff in H as [P H]. split; auto.
+    destruct (ctor_lex (t_orc c) lex dt), (ctor_lex (t_orc c) (n3_lex lex dt) dt); auto.
+    apply str_eqb_eq. exact H.
+  - split; [discriminate|].
+    assert (n3_lex lex dt = lex) as E.
+    { unfold n3_lex, respelled in *. destruct dt as [d|]; auto. destruct (smem d infnan_types); auto.
+      destruct (float_class lex); auto; discriminate. }
+    rewrite E. destruct (ctor_lex (t_orc c) lex dt); auto.
+Qed.
+
+Theorem tspec_ok_model : forall c, twf c = true -> tspec_ok c (tmodel_obs c) = true.
+Proof.
+  intros c H. destruct (twf_parts c H) as [W [R O]].
+  unfold tspec_ok, tmodel_obs. cbn [t_n3 t_from t_pickle t_flags forallb andb]. rewrite andb_true_r.
+  apply andb_true_iff. split; [apply pickle_same; exact W|].
+  destruct (n3 (t_term c)) as [s|] eqn:E.
+  - rewrite (from_n3_n3_wf (t_orc c) _ s W R E).
+    destruct (t_term c) as [u|u|u|lex dt lang]; cbn [normal_form same_wres]; try apply term_same_refl.
+    cbn [wf_term] in W. apply andb_true_iff in W as [_ W]. unfold mk_literal.
+    destruct dt as [d|], lang as [l|]; try discriminate.
+    + destruct (ctor_lex (t_orc c) lex (Some d)) as [a|]; [|reflexivity].
+      destruct (ctor_lex (t_orc c) (n3_lex lex (Some d)) (Some d)) as [b|]; [|reflexivity].
+      subst. apply term_same_refl.
+    + apply andb_true_iff in W as [VL _]. destruct l as [|x l]; [discriminate|]. rewrite VL.
+      cbn [n3_lex ctor_lex same_wres]. apply term_same_refl.
+    + cbn [n3_lex ctor_lex same_wres]. apply term_same_refl.
+  - destruct (t_term c) as [u|u|u|lex dt lang]; cbn [n3] in E; try discriminate.
+    + destruct (valid_uri u); [discriminate|reflexivity].
+    + destruct (truthy lang); [discriminate|]. destruct (truthy dt); discriminate.
+Qed.
+
+(* reading of the checker *)
+Lemma tspec_ok_reads : forall c o, tspec_ok c o = true ->
+  same_as (t_term c) (t_pickle o) = true
+  /\ (forall s, t_n3 o = Some s -> same_wres (normal_form (t_orc c) (t_term c)) (t_from o) = true)
+  /\ (t_n3 o = None -> exists s, t_term c = IRI s /\ valid_uri s = false)
+  /\ ~ In (Some false) (t_flags o).
+Proof.
+  intros c o H. unfold tspec_ok in H.
+  apply andb_true_iff in H as [H H3]. apply andb_true_iff in H as [H1 H2].
+  repeat split; auto.
+  - intros s E. rewrite E in H2. exact H2.
+  - intro E. rewrite E in H2. destruct (t_term c); try discriminate. exists s. split; auto.
+    apply negb_true_iff in H2. exact H2.
+  - intro Hin. rewrite forallb_forall in H3. specialize (H3 _ Hin). discriminate.
+Qed.
+
+(* the literal the constructor leaves alone reads back as itself *)
+Corollary from_n3_n3_fixed : forall o lex dt lang s,
+  wf_term (Lit lex dt lang) = true -> respelled lex dt = false -> ctor_lex o lex dt = Some lex ->
+  n3 (Lit lex dt lang) = Some s -> same_as (Lit lex dt lang) (from_n3 o s) = true.
+Proof.
+  intros o lex dt lang s W R F E.
+  rewrite (from_n3_n3_wf o _ s W) by (auto; cbn [respell_ok]; rewrite R; discriminate).
+  assert (n3_lex lex dt = lex) as NL.
+  { unfold n3_lex, respelled in *. destruct dt as [d|]; auto. destruct (smem d infnan_types); auto.
+    destruct (float_class lex); auto; discriminate. }
+  rewrite NL. cbn [wf_term] in W. apply andb_true_iff in W as [_ W]. unfold mk_literal.
+  destruct dt as [d|], lang as [l|]; try discriminate.
+  - rewrite F. apply term_same_refl.
+  - apply andb_true_iff in W as [VL _]. destruct l as [|x l]; [discriminate|]. rewrite VL. apply term_same_refl.
+  - apply term_same_refl.
+Qed.
+
+(* ------------------------------------------------------------------ *)
+(* the code as it was before the "fix:" commits (findings F7a, F7b, F7e), kept so that the refutations stay checkable *)
+
+Definition decode_prefix (v : str) : option str :=
+  codec (replace [bs; 120] [bs; bs; 120] (replace [bs; 34] [34] v)).
+
+Definition last_is_bare_quote (e : str) : bool :=
+  match rev e with a :: b :: _ => N.eqb a 34 && negb (N.eqb b bs) | _ => false end.
+Definition quote_encode3_prefix (s : str) : str :=
+  let e := replace [bs] [bs; bs] s in
+  let e := if containsb q3 s then replace q3 esc3 e else e in
+  let e := if last_is_bare_quote e then removelast e ++ [bs; 34] else e in
+  replace [13] [bs; 114] e.
+
+(* F7b: the text of Literal('\\x41') between the quotes is \\x41; the old passes read it as \A *)
+Lemma prefix_bs_x_refuted :
+  quote_encode [92; 120; 52; 49] = [34; 92; 92; 120; 52; 49; 34]
+  /\ decode_prefix [92; 92; 120; 52; 49] = Some [92; 65]
+  /\ decode_prefix [92; 92; 120] = None.
+Proof. vm_compute. auto. Qed.
+
+(* F7e: the old triple-quoted form of LF backslash quote ends in four quotes, and the old passes drop the backslash *)
+Lemma prefix_bs_quote_refuted :
+  quote_encode3_prefix [10; 92; 34] = [10; 92; 92; 34]
+  /\ decode_prefix [10; 92; 92; 34] = Some [10; 34].
+Proof. vm_compute. auto. Qed.
+
+(* F7a: __reduce__ used to rebuild through the normalising constructor *)
+Lemma prefix_pickle_refuted :
+  mk_literal [] true [48; 49] None (Some xsd_integer) = WTerm (Lit [49] (Some xsd_integer) None).
+Proof. vm_compute. reflexivity. Qed.
